@@ -184,6 +184,10 @@ func runCheck(root, prop, tier string, makeBaseline, verbose, keep bool, onlyFn 
 			reports = append(reports, rep)
 			continue
 		}
+		if len(ctx.unbound) > 0 {
+			binding = append(binding, ctx.unbound...)
+			bindingFns = append(bindingFns, con)
+		}
 		rep.Obls = len(ctx.obls)
 		rep.Unrolled = ctx.unrolled
 		rep.Notes = ctx.notes
